@@ -279,6 +279,16 @@ def stepPolled (cfg : Cfg) (o : Oracle) (latest : Option Int) (now : Int) (s : W
   | none => ({ s with alive := false }, [])
   | some height => stepHeight cfg o height now s
 
+/-- `Run` has returned (an error reached `errC`, or its context was cancelled) and the supervisor starts it again **on the same
+`Watcher` value**.  What the loops keep in local variables starts afresh — `pendingEvents` is empty, `fetchEvents` reads the
+current event count and starts there (`none`: that first count request fails and the new incarnation ends at once) — while
+the fields of the `Watcher` itself survive: of those the loops read only `blockPollerEnabled`.  Nothing else about the
+previous incarnation is remembered: no index, no event, no answer of the node. -/
+def restartW (s : WState) (count0 : Option Int) : WState :=
+  match count0 with
+  | none => { pending := [], enabled := s.enabled, alive := false, fromIndex := s.fromIndex }
+  | some c => { pending := [], enabled := s.enabled, alive := true, fromIndex := c }
+
 /-! ## the count-then-pages fetch loop (watcher.go:214-256, repaired exit test) -/
 
 structure Page where
